@@ -36,7 +36,10 @@ def _worker(job):
                 if c.case is None or c.kwargs:
                     reg.contracts.setdefault(fobj, []).append(c)
         c = api.CONTRACTS[key]
-        if c.assumed:
+        if c.native_only:
+            res = {'contract': key, 'target': c.target, 'status': 'ok', 'obligations': [], 'notes': [], 'paths': 0, 'props': list(c.props),
+                   'native_only': True}
+        elif c.assumed:
             res = {'contract': key, 'target': c.target, 'status': 'assumed', 'obligations': [], 'notes': [c.trusted_note or ''],
                    'paths': 0, 'props': list(c.props)}
         else:
@@ -181,7 +184,10 @@ def report(prop, pmod, results, tier, seed, t0):
         for i in r.get('inlined') or []:
             pass
         is_bounded = bool(r.get('bounded'))
-        if is_bounded:
+        if r.get('native_only'):
+            bounded.append('%s: BOUNDED STAND-IN, native contract evaluation only (%s): %d random evaluations, not counted as proved'
+                           % (key, r.get('bounded'), fz.get('runs', 0)))
+        elif is_bounded:
             bounded.append('%s: BOUNDED STAND-IN (%s): %d obligation instances, %d hold as stated, not counted as proved'
                            % (key, r['bounded'], sum(o['paths'] for o in r['obligations']), sum(o['discharged'] for o in r['obligations'])))
         # an obligation refuted only modulo uninterpreted functions + a native failing input of the same contract:
